@@ -139,12 +139,53 @@ def run_seeded(prop: str, root: str, known):
     return out
 
 
+def run_reformat_twin(prop: str, root: str, known) -> tuple[str, str]:
+    """The whole-tree benign twin: every Python source under src/basilisp is replaced by
+    ast.unparse(ast.parse(source)) (comments gone, layout and quoting changed, line numbers moved)
+    in an overlay; the verdict of every obligation must be what it is on the tree itself."""
+    from .run import analyse
+
+    tmp = tempfile.mkdtemp(prefix="sa_reformat_")
+    try:
+        base = os.path.join(root, "src", "basilisp")
+        for d, _dn, fs in os.walk(base):
+            for f in fs:
+                if not f.endswith(".py"):
+                    continue
+                p = os.path.join(d, f)
+                with open(p, encoding="utf-8") as fh:
+                    src = fh.read()
+                dst = os.path.join(tmp, os.path.relpath(p, root))
+                os.makedirs(os.path.dirname(dst), exist_ok=True)
+                with open(dst, "w", encoding="utf-8") as fh:
+                    fh.write(ast.unparse(ast.parse(src)) + "\n")
+        try:
+            ref, _p, _m = analyse(prop, "quick", root, known=known)
+            ctx, _p, _m = analyse(prop, "quick", root, overlay=tmp, known=known)
+        except core.AnalysisError as ex:
+            return "FAIL", f"whole-tree reformat twin: analysis error: {ex}"
+        a = {(o.rule, o.instance): o.status for o in ref.obligations}
+        b = {(o.rule, o.instance): o.status for o in ctx.obligations}
+        if a != b:
+            diff = sorted(set(a.items()) ^ set(b.items()))[:3]
+            return "FAIL", f"whole-tree reformat twin: verdicts differ on a behaviour-preserving rewrite: {diff}"
+        return "ok", f"whole-tree reformat twin: {len(b)} obligations, same verdicts"
+    finally:
+        shutil.rmtree(tmp, ignore_errors=True)
+
+
 def run_for(prop: str, root: str) -> dict:
     mod = importlib.import_module(f"sa.rules.{prop}")
     cases = list(getattr(mod, "SELFTEST", []))
     known = core.load_known()
     res = {"mutants": 0, "fired": 0, "twins": 0, "silent": 0, "stale": 0, "cases": []}
     failures = []
+    outcome, msg = run_reformat_twin(prop, root, known)
+    res["cases"].append(f"{outcome}: {msg}")
+    res["twins"] += 1
+    res["silent"] += outcome == "ok"
+    if outcome == "FAIL":
+        failures.append(msg)
     for c in cases:
         outcome, msg = run_case(prop, root, c, known)
         res["cases"].append(f"{outcome}: {msg}")
